@@ -2,8 +2,8 @@ package props
 
 import (
 	"fmt"
-	"strconv"
 	"sort"
+	"strconv"
 	"strings"
 	"testing"
 
